@@ -5,6 +5,7 @@ import CkbVerif.Model.Locate
 import CkbVerif.Model.Inflight
 import CkbVerif.Model.HeaderMap
 import CkbVerif.Model.HeadersSync
+import CkbVerif.Model.Fetch
 
 /-! Line-protocol driver for C17: four sub-modes (`orphan`, `skip`, `inflight`, `headermap`);
 protocol in harness/hnode/src/c17.rs. -/
@@ -71,6 +72,8 @@ structure St where
   stored : Array Bool := #[]
   /-- `Peers.state`: best known header and last common header per peer -/
   peers : PeersSt := []
+  /-- `SyncState.inflight_blocks` (node-level stream: written by `fetch`, `finsert`, `frmpeer`) -/
+  infl : CkbVerif.Inflight.Inflight := {}
 
 def St.store (s : St) : Store := fun i => (s.hdrs.getD i none)
 
@@ -206,6 +209,42 @@ def step (s : St) (ts : List String) : St × String :=
       let s := { s with peers := r.1 }
       (s, s!"r={showNH r.2} {showPeer s p}")
     | _, _, _ => (s, "bad-op")
+  | ["finsert", p, n, i] =>
+    match parseNat? p, parseNat? n, parseNat? i with
+    | some p, some n, some i =>
+      let r := CkbVerif.Inflight.insert s.infl 0 p ⟨n, i⟩
+      ({ s with infl := r.1 }, s!"{r.2} total={r.1.states.length}")
+    | _, _, _ => (s, "bad-op")
+  | ["frmpeer", p] =>
+    match parseNat? p with
+    | some p =>
+      let r := CkbVerif.Inflight.removeByPeer s.infl p
+      ({ s with infl := r.1 }, s!"{r.2} total={r.1.states.length}")
+    | none => (s, "bad-op")
+  | ["fetch", p, fe, ibd, ut, mytd, sv, rc] =>
+    match parseNat? p, parseNat? fe, parseNat? ut, parseNat? mytd, parseNatList? sv, parseNatList? rc with
+    | some p, some fe, some ut, some mytd, some sv, some rc =>
+      let e : CkbVerif.Fetch.Env := {
+        anc := fun base n => (s.store base).bind (fun b => getAncestor s.store (s.scan true) b n),
+        hdr := s.store,
+        stored := fun id => s.stored.getD id false,
+        valid := fun id => s.stored.getD id false && !sv.contains id,
+        received := fun id => rc.contains id,
+        numOnMain := s.numOnMain, mainHash := s.mainHash, tipNumber := s.main.size - 1,
+        unverifiedTip := ut, totalDifficulty := mytd, ibd := ibd == "1", now := 0 }
+      let r := CkbVerif.Fetch.fetch e s.infl s.peers p fe
+      let s := { s with infl := r.2.1, peers := r.2.2 }
+      let ans := match r.1 with
+        | none => "none"
+        | some cs => if cs.isEmpty then "-" else ";".intercalate (cs.map (fun (c : List Nat) => ",".intercalate (c.map toString)))
+      let mine := match s.infl.scheds.find? (fun e => e.1 == p) with
+        | some (_, sc) => showSet (sc.hashes.map (fun (b : CkbVerif.Inflight.Blk) => b.hash))
+        | none => "nosched"
+      let lc := match s.peers.get p with
+        | some st => showNH st.lastCommon
+        | none => "nopeer"
+      (s, s!"r={ans} lc={lc} infl={mine} total={s.infl.states.length}")
+    | _, _, _, _, _, _ => (s, "bad-op")
   | ["main", i] =>
     match (parseNat? i).bind s.store with
     | some tip =>
